@@ -45,6 +45,7 @@ def check(chk, fx):
     termrules.termapi(chk, fx)        # ids / names / data the parser and the lexer builder read
     from .. import primrules
     primrules.prims(chk, fx, "UTIL")
+    primrules.prims(chk, fx, "GAPI2")
 
 
 def _optional_paths(chk, f, rule, name):
